@@ -382,7 +382,7 @@ def blocks_rule(ctx, p, K):
         nm, v, op, g, l, n = incs[0]
         det = f"{nm} += {v!r} under {[repr(c) for c in real_guards(g)]} in {[repr(x) for x in l]}"
         seq = getattr(l[0], "seq", None) if len(l) == 1 else None
-        ok = len(l) == 1 and isinstance(seq, Ref) and seq.name == "self.linear_obj_list" and not real_guards(g) and isinstance(v, Poly) and repr(v).endswith(".params") and l[0].var in repr(v)
+        ok = len(l) == 1 and isinstance(seq, Ref) and seq.name == "self.linear_obj_list" and not real_guards(g) and isinstance(v, Poly) and repr(v) in ("self.linear_obj_list.params", f"{l[0].var}.params")   # .params of the element the loop is at
     ctx.ob(rule, f.key + ":offset", ok, where=f, node=incs[0][5] if incs else f.node, construct=det,
            message="the running parameter offset must advance by linear_obj.params once per object of self.linear_obj_list, unconditionally (also for objects not of the requested class)")
     # the appended range is [offset, offset + params] using the pre-increment offset, appended only for instances of cls
